@@ -1,3 +1,327 @@
 package main
 
-func runThorough(rep *Report, prop *Property, o RunOpts) {}
+// Thorough tier: everything the quick tier does, plus
+//   (i)   the same rules on two more build configurations (GOOS=windows, GOARCH=386), which must
+//         agree with the default configuration obligation for obligation;
+//   (ii)  the same rules with a deeper summary-inlining bound, which must agree as well;
+//   (iii) checker self-validation: every seeded mutant of this property under /verif/seeded (patches
+//         written by independent agents from the property text alone, each confirmed to break the
+//         property while passing the test suite) is applied as an in-memory overlay of /repo's
+//         current source - nothing is written to disk - and must be reported by this property's
+//         rules. A patch that no longer applies to the current tree is skipped and listed; a patch
+//         that applies and is NOT reported makes the check BROKEN (a rule lost its teeth).
+// Nothing here executes repository code.
+
+import (
+	"encoding/json"
+	"fmt"
+	"os"
+	"path/filepath"
+	"sort"
+	"strconv"
+	"strings"
+)
+
+type verdictSet struct {
+	keys   []string // sorted obligation keys with verdict
+	viol   []Obligation
+	broken []string
+}
+
+// runRulesOn runs the property's rules on a freshly built world and returns the verdicts.
+func runRulesOn(prop *Property, o RunOpts, env []string, overlay map[string][]byte, depth int) (vs verdictSet, err error) {
+	defer func() {
+		if r := recover(); r != nil {
+			if be, ok := r.(BrokenError); ok {
+				err = fmt.Errorf("%s", be.Msg)
+				return
+			}
+			err = fmt.Errorf("%v", r)
+		}
+	}()
+	w := BuildWorld(o.Repo, env, overlay)
+	if depth > 0 {
+		w.FE.Depth = depth
+	}
+	rep := NewReport(prop, RunOpts{Tier: "quick", Repo: o.Repo, Verif: o.Verif, NoEvidence: true, Mutant: "overlay"})
+	rep.W = w
+	for _, r := range prop.Rules {
+		rep.RunRule(w, r)
+	}
+	for _, ob := range rep.Obs {
+		v := "ok"
+		if !ob.OK {
+			v = "FAIL"
+			if rep.isKnown(ob) == nil {
+				vs.viol = append(vs.viol, ob)
+			}
+		}
+		vs.keys = append(vs.keys, ob.Key()+"="+v)
+	}
+	sort.Strings(vs.keys)
+	vs.broken = rep.BrokenBy
+	return vs, nil
+}
+
+func diffKeys(a, b []string) []string {
+	am := map[string]bool{}
+	for _, k := range a {
+		am[k] = true
+	}
+	bm := map[string]bool{}
+	for _, k := range b {
+		bm[k] = true
+	}
+	var out []string
+	for k := range am {
+		if !bm[k] {
+			out = append(out, "- "+k)
+		}
+	}
+	for k := range bm {
+		if !am[k] {
+			out = append(out, "+ "+k)
+		}
+	}
+	sort.Strings(out)
+	return out
+}
+
+func runThorough(rep *Report, prop *Property, o RunOpts) {
+	// reference: the verdicts of this very run
+	var ref []string
+	for _, ob := range rep.Obs {
+		v := "ok"
+		if !ob.OK {
+			v = "FAIL"
+		}
+		ref = append(ref, ob.Key()+"="+v)
+	}
+	sort.Strings(ref)
+	// (i) build configurations
+	type cfgRes struct {
+		Config      string `json:"config"`
+		Obligations int    `json:"obligations"`
+		Agrees      bool   `json:"agrees_with_default"`
+		Error       string `json:"error,omitempty"`
+	}
+	var cfgs []cfgRes
+	for _, env := range [][]string{{"GOOS=windows", "GOARCH=amd64"}, {"GOOS=linux", "GOARCH=386"}} {
+		name := strings.Join(env, " ")
+		vs, err := runRulesOn(prop, o, env, nil, 0)
+		cr := cfgRes{Config: name, Obligations: len(vs.keys)}
+		if err != nil {
+			cr.Error = err.Error()
+			rep.Broken("build configuration " + name + ": " + err.Error())
+		} else {
+			d := diffKeys(ref, vs.keys)
+			cr.Agrees = len(d) == 0
+			if !cr.Agrees {
+				// a rule that fails only on another platform's files is a violation there
+				for _, v := range vs.viol {
+					v.Construct += " [" + name + "]"
+					rep.Obs = append(rep.Obs, v)
+				}
+				if len(vs.viol) == 0 {
+					rep.Broken(fmt.Sprintf("build configuration %s disagrees with the default on %d obligations: %s", name, len(d), strings.Join(firstN(d, 6), "; ")))
+				}
+			}
+			for _, b := range vs.broken {
+				rep.Broken("build configuration " + name + ": " + b)
+			}
+		}
+		cfgs = append(cfgs, cr)
+	}
+	rep.Extra["build_configs"] = cfgs
+	// (ii) deeper summaries
+	deep, err := runRulesOn(prop, o, nil, nil, 6)
+	if err != nil {
+		rep.Broken("deeper summary bound: " + err.Error())
+	} else {
+		d := diffKeys(ref, deep.keys)
+		rep.Extra["deeper_summary_bound"] = map[string]interface{}{"depth": 6, "obligations": len(deep.keys), "agrees": len(d) == 0}
+		if len(d) != 0 {
+			rep.Broken(fmt.Sprintf("verdicts change with summary depth 6 (%d differences): %s", len(d), strings.Join(firstN(d, 6), "; ")))
+		}
+	}
+	// (iii) seeded mutants as overlays
+	type mutRes struct {
+		ID       string   `json:"id"`
+		Applied  bool     `json:"applied"`
+		Detected bool     `json:"detected"`
+		By       []string `json:"reported_by,omitempty"`
+		Note     string   `json:"note,omitempty"`
+	}
+	var muts []mutRes
+	dirs, _ := filepath.Glob(filepath.Join(o.Verif, "seeded", "*"))
+	sort.Strings(dirs)
+	applied, detected, skipped := 0, 0, 0
+	for _, d := range dirs {
+		mb, err := os.ReadFile(filepath.Join(d, "meta.json"))
+		if err != nil {
+			continue
+		}
+		var meta struct {
+			Property string `json:"property"`
+		}
+		if json.Unmarshal(mb, &meta) != nil || meta.Property != prop.ID {
+			continue
+		}
+		id := filepath.Base(d)
+		pb, err := os.ReadFile(filepath.Join(d, "patch.diff"))
+		if err != nil {
+			continue
+		}
+		ov, err := overlayFromPatch(o.Repo, string(pb))
+		mr := mutRes{ID: id}
+		if err != nil {
+			skipped++
+			mr.Note = "patch does not apply to the current tree: " + err.Error()
+			muts = append(muts, mr)
+			continue
+		}
+		mr.Applied = true
+		applied++
+		vs, err := runRulesOn(prop, o, nil, ov, 0)
+		if err != nil {
+			// the mutant does not type-check / cannot be analysed: not a verdict on the rules
+			mr.Note = "mutant could not be analysed: " + err.Error()
+			muts = append(muts, mr)
+			continue
+		}
+		seen := map[string]bool{}
+		for _, v := range vs.viol {
+			if !seen[v.Rule] {
+				seen[v.Rule] = true
+				mr.By = append(mr.By, v.Rule)
+			}
+		}
+		sort.Strings(mr.By)
+		mr.Detected = len(vs.viol) > 0
+		if mr.Detected {
+			detected++
+		} else {
+			rep.Broken(fmt.Sprintf("self-validation: seeded mutant %s applies to the current tree and breaks %s, but no rule reports it (a rule has lost its teeth)", id, prop.ID))
+		}
+		muts = append(muts, mr)
+	}
+	rep.Extra["seeded_mutants"] = muts
+	rep.Extra["mutants_applied"] = applied
+	rep.Extra["mutants_detected"] = detected
+	rep.Extra["mutants_skipped"] = skipped
+}
+
+func firstN(s []string, n int) []string {
+	if len(s) > n {
+		return s[:n]
+	}
+	return s
+}
+
+// overlayFromPatch applies a unified diff to the current files of repo in memory.
+func overlayFromPatch(repo, patch string) (map[string][]byte, error) {
+	out := map[string][]byte{}
+	lines := strings.Split(patch, "\n")
+	i := 0
+	for i < len(lines) {
+		if !strings.HasPrefix(lines[i], "+++ ") {
+			i++
+			continue
+		}
+		name := strings.TrimPrefix(lines[i], "+++ ")
+		name = strings.TrimPrefix(strings.Fields(name)[0], "b/")
+		i++
+		path := filepath.Join(repo, name)
+		var src []string
+		if cur, ok := out[path]; ok {
+			src = strings.Split(string(cur), "\n")
+		} else {
+			b, err := os.ReadFile(path)
+			if err != nil {
+				return nil, err
+			}
+			src = strings.Split(string(b), "\n")
+		}
+		offset := 0
+		for i < len(lines) && strings.HasPrefix(lines[i], "@@") {
+			// @@ -a,b +c,d @@
+			hdr := lines[i]
+			i++
+			parts := strings.Fields(hdr)
+			if len(parts) < 3 {
+				return nil, fmt.Errorf("bad hunk header %q", hdr)
+			}
+			old := strings.TrimPrefix(parts[1], "-")
+			startS := strings.Split(old, ",")[0]
+			start, err := strconv.Atoi(startS)
+			if err != nil {
+				return nil, fmt.Errorf("bad hunk header %q", hdr)
+			}
+			var before, after []string
+			for i < len(lines) {
+				l := lines[i]
+				if strings.HasPrefix(l, "@@") || strings.HasPrefix(l, "diff ") || strings.HasPrefix(l, "--- ") {
+					break
+				}
+				if strings.HasPrefix(l, "\\") {
+					i++
+					continue
+				}
+				if l == "" && i == len(lines)-1 {
+					i++
+					continue
+				}
+				switch {
+				case strings.HasPrefix(l, "+"):
+					after = append(after, l[1:])
+				case strings.HasPrefix(l, "-"):
+					before = append(before, l[1:])
+				default:
+					t := l
+					if strings.HasPrefix(t, " ") {
+						t = t[1:]
+					}
+					before = append(before, t)
+					after = append(after, t)
+				}
+				i++
+			}
+			// locate `before` near start-1+offset
+			pos := -1
+			want := start - 1 + offset
+			for delta := 0; delta <= 200 && pos < 0; delta++ {
+				for _, cand := range []int{want + delta, want - delta} {
+					if cand >= 0 && cand+len(before) <= len(src) && equalLines(src[cand:cand+len(before)], before) {
+						pos = cand
+						break
+					}
+				}
+			}
+			if pos < 0 {
+				return nil, fmt.Errorf("hunk at %s:%d does not match", name, start)
+			}
+			ns := append([]string{}, src[:pos]...)
+			ns = append(ns, after...)
+			ns = append(ns, src[pos+len(before):]...)
+			offset += len(after) - len(before)
+			src = ns
+		}
+		out[path] = []byte(strings.Join(src, "\n"))
+	}
+	if len(out) == 0 {
+		return nil, fmt.Errorf("no file sections in patch")
+	}
+	return out, nil
+}
+
+func equalLines(a, b []string) bool {
+	if len(a) != len(b) {
+		return false
+	}
+	for i := range a {
+		if a[i] != b[i] {
+			return false
+		}
+	}
+	return true
+}
